@@ -30,6 +30,16 @@ def outside_enum(mm, name):
     return [v for v in out if v not in vals]
 
 
+def literal_neighbours(v):
+    """Strings next to a string literal: super-, sub-, prefix, suffix and case variants (never the literal)."""
+    out = [v + "x", "", "x" + v, v[:-1], v[1:], v[:1], v[1:-1], v.upper(), v.capitalize(), " " + v, v + " "]
+    seen = []
+    for x in out:
+        if x != v and x not in seen:
+            seen.append(x)
+    return seen
+
+
 def edits_at(mm, j, t, path, depth, maxdepth):
     """Yield (kind, path, new_value_or_REMOVE) for the eligible properties of the object node j (read
     as structure type t) and, up to maxdepth, of nested structure nodes."""
@@ -58,8 +68,8 @@ def edits_at(mm, j, t, path, depth, maxdepth):
                 for x in outside_enum(mm, tt["name"]):
                     yield "closed-enum-outside", tp, x
             elif tt["kind"] == "stringLiteral":
-                yield "literal-changed", tp, tt["value"] + "x"
-                yield "literal-changed", tp, ""
+                for x in literal_neighbours(tt["value"]):
+                    yield "literal-changed", tp, x
         # nested structure nodes
         if depth < maxdepth:
             if pt["kind"] == "reference" and pt["name"] in mm.structures:
